@@ -21,7 +21,7 @@ def shape(name, nn, nd, dc, which, pad=0, tier="quick", timeout=1200):
              domain=LAT + "constructive oracle (q, r) exact", free_bits=free, fns=fns, role="c14::" + kern)
 
 
-PROBED_OK = {"div_2x1", "div_2x1_spec", "div_3x2_spec", "nx1_3_norm_spec"}   # kernel-shape harnesses that finished in a measured probe (name -> registered)
+PROBED_OK = {"div_2x1", "div_2x1_spec"}   # div_3x2_spec, nx1_3_norm_spec: > 3000 s even with the reciprocals by specification   # kernel-shape harnesses that finished in a measured probe (name -> registered)
 
 
 def harnesses():
